@@ -2,6 +2,7 @@ import GridVerif.Model.Proto
 import GridVerif.Model.Elem
 import GridVerif.Model.Periodic
 import GridVerif.Model.LocalGridGen
+import GridVerif.Gen.PeriodicGridInit
 import GridVerif.Driver.C10
 
 /-
@@ -14,19 +15,31 @@ import GridVerif.Driver.C10
 
   with the ops of C10 (`q`, `sp`, `sw`, `gi`).  Answer: the error tag of the constructor or
 
-    ok C <points: mat> <recivecs: mat> <spacings: vec> <frac_intvls: mat k×2> | <out> | …
+    ok C <points: mat> <recivecs: mat> <spacings: vec> <frac_intvls: mat k×2> <warn> | <out> | …
     out := L <ilc: mat n×k> <indices: vec> <points: mat> <weights: vec>
-         | G <points: mat> <weights: vec> <frac_intvls: mat>
+         | G <points: mat> <weights: vec> <frac_intvls: mat> <warn>
          | D <frac_intvls: mat>          (after `sp`)    | D   (after `sw`)
          | E <error>
+    warn := W0 | W1:<category>:<stacklevel> | WE:<error> | WU
+            (the **generated** warning block `Gen/PeriodicGridInit.lean: PeriodicGrid_init_warning` run on the
+             `_frac_intvls` of the object just constructed: no warning / one warning / raises / unmodelled)
 -/
 namespace GridVerif.Driver.C11
 open GridVerif.Proto GridVerif.LocalGrid GridVerif.Periodic GridVerif.LocalGridGen
 open GridVerif.Gen.LocalGrid (PeriodicGrid_init)
+open GridVerif.Gen.PeriodicGridInit (PeriodicGrid_init_warning)
 open GridVerif.Driver.C10 (P pTok pBool pOps sErr)
 
 def sIntv (iv : List (Float × Float)) : String :=
   sMat sFloat (iv.map fun p => [p.1, p.2])
+
+/-- The generated warning block of the constructor on the intervals of a constructed object. -/
+def sWarn (g : PGrid Float) : String :=
+  match PeriodicGrid_init_warning g.fracIntvls with
+  | none => "WU"
+  | some (.error e) => s!"WE:{sErr e}"
+  | some (.ok none) => "W0"
+  | some (.ok (some (cat, lvl))) => s!"W1:{cat}:{lvl}"
 
 def toPOp : Op Float → POp Float
   | .query c r => .query c r
@@ -56,7 +69,7 @@ def runShow (g : PGrid Float) : List (Op Float) → List String
       | .out .done, _ => "D"
       | .out (.error e), _ => s!"E {sErr e}"
       | .out (.grid ..), _ => "E unexpected"
-      | .grid sub, _ => s!"G {sMat sFloat sub.points} {sFloats sub.weights} {sIntv sub.fracIntvls}"
+      | .grid sub, _ => s!"G {sMat sFloat sub.points} {sFloats sub.weights} {sIntv sub.fracIntvls} {sWarn sub}"
     s :: runShow g' ops
 
 def handle : List String → Option String
@@ -75,7 +88,7 @@ def handle : List String → Option String
     | none => pure "unmodelled"
     | some (.error e) => pure (sErr e)
     | some (.ok g) =>
-      let head := s!"C {sMat sFloat g.points} {sMat sFloat g.recivecs} {sFloats g.spacings} {sIntv g.fracIntvls}"
+      let head := s!"C {sMat sFloat g.points} {sMat sFloat g.recivecs} {sFloats g.spacings} {sIntv g.fracIntvls} {sWarn g}"
       pure ("ok " ++ String.intercalate " | " (head :: runShow g ops))
   | _ => none
 
